@@ -439,7 +439,7 @@ def shrink_item(item, rerun_case):
     mode = item["mode"]
     if mode == "c03e2e":
         return shrink_e2e(item, rerun_case)
-    if mode in ("c04cli", "c04os", "c19cli", "c04ev", "c03fig", "c04cal", "c04dur"):
+    if mode in ("c04cli", "c04os", "c19cli", "c04ev", "c03fig", "c04cal", "c04dur", "c03thr"):
         return item          # already small; their tokens are not those of a loop case
 
     def fails(case_line):
@@ -552,6 +552,15 @@ def e2e_cases(rng, count):
             extra = ("arg=" + a + " " if a else "") + "nomark=1"
             cases.append(e2e_case(tag, "attr", "b", n, s, th, extra))
             cases.append(e2e_case(tag, "attr", "t", n, s, th, extra))
+    # both flags (`cargo bench -- --test`), in either order: test mode
+    for tag in ("a_5_3_t123", "g_4_2_t12", "s4_t12"):
+        n, s, th = (E2E_ATTR[tag][1:4] if tag in E2E_ATTR else (2, 1, [1, 2]))
+        cases.append(e2e_case(tag, "attr", "t", n, s, th, "start=both-bt"))
+        cases.append(e2e_case(tag, "attr", "t", n, s, th, "start=both-tb"))
+    cases.append(e2e_case("plain", "cli", "t", 5, 3, [1, 3], "start=both-bt"))
+    cases.append(e2e_case("plain_inputs", "env", "t", 4, 2, [2], "start=both-tb"))
+    # scalar `threads = 64`, in test mode: one call on each of 64 threads
+    cases.append(e2e_case("thr64", "attr", "t", 65, 1, [64]))
     # how the run is started: the requested action (mode) decides, not the configured one
     for tag in ("a_5_3_t123", "g_4_2_t12", "rgi_3_2_t23", "a_1_4_t13"):
         n, s, th = E2E_ATTR[tag][1:4]
@@ -818,6 +827,14 @@ def skip_ext_cases(rng, count):
         for cskip in ("bare", "true", "false", "env-true", "env-false"):
             cases.append(case(bench, a, None, "mf", "0.000001", tvia=("env" if cskip.startswith("env") else "cli"), cskip=cskip))
         cases.append(case(bench, a, 1 - a, "sf", "0.000001", tvia="builder", cskip=("false" if a == 0 else "bare")))
+    # skip_ext_time as the ONLY option given at run time (builder / flag / environment); the ceiling is in the
+    # benchmark's attribute or its group's
+    for bench in ("vattr_max", "vgrp_max"):
+        base = f"bench={bench} via=attr mode=b n=- s=1 threads=1 maxs=0.000001 tvia=attr"
+        cases.append(base + " eskip=0 vcost=100000 vgen=300000 evlog=1")
+        cases.append(base + " bskip=1 border=mf eskip=1 vcost=100000 vgen=300000 evlog=1")
+        for cskip in ("bare", "true", "env-true", "false"):
+            cases.append(base + f" cskip={cskip} eskip={CSKIP[cskip]} vcost=100000 vgen=300000 evlog=1")
     while len(cases) < count:
         bench, a = rng.choice(benches)
         bskip = rng.choice([None, 0, 0, 1])
@@ -949,3 +966,27 @@ def attr_limit_cases():
     cases.append("bench=vmin_big via=attr mode=b n=2 s=1 threads=1 mins=18446744073709550591 maxs=0.000002 tvia=attr vcost=100000 evlog=1")
     cases.append("bench=vmax_2p53 via=attr mode=b n=3 s=1 threads=1 maxs=9007199254740993 tvia=attr vcost=100000 evlog=1")
     return cases
+
+
+# ---------------------------------------------------------------------------
+# C03: `threads = ..` values through IntoThreads (function level)
+# ---------------------------------------------------------------------------
+
+def into_threads_stream(name, rng):
+    vals = list(range(0, 131))
+    for k in range(3, 17):
+        vals += [2**k - 1, 2**k, 2**k + 1]
+    vals = sorted(set(vals))
+    cases = [f"t={v}" for v in vals]
+    cases += ["a=64", "a=64,63,65,64", "a=0,64,128,1", "a=2,2,2", "a=", "a=130,129,131", "r=0..0", "r=60..70", "r=63..65", "r=64..65",
+              "r=0..130", "a=32,33,31,1024,1025,1023"]
+    for _ in range(30):
+        k = rng.randrange(1, 7)
+        cases.append("a=" + ",".join(str(rng.choice(vals)) for _ in range(k)))
+    cases = list(dict.fromkeys(cases))
+
+    def nt(case, model_line):
+        return case not in ("t=0", "a=", "r=0..0")
+    return Stream(name, "c03thr", cases, nontrivial=nt, crate="hx-loop", drv="loop",
+                  describe="divan::__private::IntoThreads: scalars 0..130 and powers of two +-1 up to 2^16 are themselves; "
+                           "arrays and ranges are their sorted sets")
